@@ -1454,7 +1454,9 @@ class Evaluator:
         if n == "str":
             if tm.is_conc(a0) and not isinstance(a0, (list, dict, tuple, bytes)):
                 return str(a0)
-            return T("tostr", (tm._fz(a0),), tm.STR)
+            if tm.tyof(a0) == tm.STR:
+                return a0
+            return T("fmt", (tm._fz(a0), None, -1), tm.STR)  # str(x) and f"{x}" are one term
         if n == "bytes":
             if isinstance(a0, list) and tm.is_conc(a0):
                 return bytes(a0)
